@@ -30,7 +30,7 @@ func TestVerif(t *testing.T) {
 	driver.Main(t, driver.Harness{
 		ID:    "C03",
 		Level: "model_checking",
-		Rule: "scenario = DAG (curated family + a referrer whose subject is a layer blob + every U(4) shape with a subject or index) x start node x Depth 0..3 x filter (none | artifact-type regex per type present / no match / all | " +
+		Rule: "scenario = DAG (curated family + a referrer whose subject is a layer blob + one wide shape with 70 referrers of one manifest (default filter, Depth 0-1, four source kinds) + every U(4) shape with a subject or index) x start node x Depth 0..3 x filter (none | artifact-type regex per type present / no match / all | " +
 			"annotation key, value regex) x source kind (memory with plain descriptors, memory with rich descriptors, OCI layout written then reopened read-write / fs.FS / tar, file store, remote Repository via Referrers API / via tag schema) x API; " +
 			"for the curated shapes on the plain memory source with Depth <= 1 additionally: x one node whose content the source lost (its Fetch answers not-found), every node in turn - a failed call is not judged, a successful one by the same oracle; " +
 			"default schedule for the sweep, every schedule within D<=2 (map-order deviations O<=1 at the roots map) for multi-root shapes. Oracle: generator's inverse edge list. " +
@@ -157,6 +157,17 @@ func jobs(tier string) []driver.Job {
 			}
 		}})
 	}
+	// one wide shape: 70 referrers of one manifest (the work lists hold more entries at once than in any small shape)
+	out = append(out, driver.Job{Name: "wide/many-referrers", Run: func(c *driver.Ctx) {
+		d := Extra("many-referrers")
+		for _, start := range []int{0, 2} { // the shared config (every referrer and M are its predecessors), and M
+			for _, sk := range []string{"memory-plain", "oci-rw", "remote-api", "remote-tags"} {
+				for _, depth := range []int{0, 1} {
+					one(c, scen{d: d, start: start, depth: depth, src: sk, api: "extgraph", conc: 3}, explore.Bounds{}, nil)
+				}
+			}
+		}
+	}})
 	// sweep over U(n) shapes with an upward relation
 	n, nshard := 4, 32
 	if th {
